@@ -2036,8 +2036,12 @@ namespace bloch::compiler {
             return;
         }
 
-        if (node.op == "+" && (isStringType(lt) || isStringType(rt)))
+        if (node.op == "+" && (isStringType(lt) || isStringType(rt))) {
+            // anything echo can print concatenates - but a void call has no value at all
+            if (lt.value == ValueType::Void || rt.value == ValueType::Void)
+                errorWithTypes("operator '+' cannot take the result of a void call");
             return;
+        }
 
         if (node.op == "+" || node.op == "-" || node.op == "*" || node.op == "/") {
             if (!(isNumericType(lt) && isNumericType(rt))) {
